@@ -150,6 +150,7 @@ package zap
 //@   track FF = call (*internal/stacktrace.Formatter).FormatFrame
 //@   track WR = invoke zapcore.Core.Write
 //@   track AS = invoke zapcore.LevelEnabler.Enabled
+//@   modifies $user, zapcore.CheckedEntry.cores, zapcore.CheckedEntry.after, zapcore.CheckedEntry.ErrorOutput, zapcore.CheckedEntry.Entry, comp(E:zapcore.Core), comp(E:uint8), comp(E:uintptr), buffer.Buffer.bs, stacktrace.Formatter.nonEmpty
 //@   ensures #WR == 0
 //@   ensures lvl < zapcore.DPanicLevel && !enabled(old(log.core), lvl) ==> result == nil && #NOW == 0 && #CK == 0 && #CAP == 0
 //@   ensures !(lvl < zapcore.DPanicLevel && !enabled(old(log.core), lvl)) ==> #NOW == 1 && #CK == 1 && CK.recv[0] == old(log.core) && CK.arg1[0] == nil && CK.arg0[0].Level == lvl && CK.arg0[0].Message == msg && CK.arg0[0].LoggerName == old(log.name) && CK.arg0[0].Time == NOW.ret0[0]
@@ -158,6 +159,10 @@ package zap
 //@   ensures lvl == zapcore.DPanicLevel && old(log.development) ==> result != nil && result.after == overrideHook(iface(type(zapcore.CheckWriteAction), zapcore.WriteThenPanic), old(log.onPanic))
 //@   ensures #CK == 1 && CK.ret0[0] == nil && !(lvl == zapcore.PanicLevel || lvl == zapcore.FatalLevel || (lvl == zapcore.DPanicLevel && old(log.development))) ==> result == nil
 //@   ensures #CK == 1 && CK.ret0[0] != nil ==> result == CK.ret0[0] && result.ErrorOutput == old(log.errorOutput)
+//@   ensures result != nil ==> !result.dirty
+//@   ensures result != nil ==> (forall i int :: 0 <= i && i < len(result.cores) ==> result.cores[i] != nil)
+//@   ensures result != nil && CK.ret0[0] == nil ==> len(result.cores) == 0
+//@   ensures result != nil && CK.ret0[0] != nil ==> (forall i int :: 0 <= i && i < len(result.cores) ==> result.cores[i] != nil)
 //@   ensures #CAP <= 1
 //@   ensures #CAP == 1 ==> CAP.arg0[0] == old(log.callerSkip) + 2
 //@   ensures #CK == 1 && CK.ret0[0] != nil ==> #AS == 1 && AS.recv[0] == old(log.addStack) && AS.arg0[0] == lvl
@@ -180,3 +185,104 @@ package zap
 //@   track LO = call zapcore.LevelOf
 //@   modifies nothing
 //@   ensures #LO == 1 && LO.arg0[0] == log.core && result == LO.ret0[0]
+
+// Front ends: exactly one check at the method's level, then Write on a non-nil result. With the
+// contracts of check and CheckedEntry.Write this gives: at Panic/Fatal (and DPanic in
+// development) the entry is non-nil, carries the terminal hook, and the hook runs after all
+// accepting cores were written - whether or not the level is enabled.
+
+//@ func (*zap.Logger).Debug
+//@   props C06 C15 C05
+//@   flags nopanic propagates-panics
+//@   requires log != nil && log.core != nil && log.clock != nil && log.addStack != nil && log.errorOutput != nil
+//@   requires 0 <= log.callerSkip && log.callerSkip <= 1 << 20
+//@   track C = call (*zap.Logger).check
+//@   track W = call (*zapcore.CheckedEntry).Write
+//@   ensures #C == 1 && C.recv[0] == log && C.arg0[0] == zapcore.DebugLevel && C.arg1[0] == msg
+//@   ensures (C.ret0[0] != nil <==> #W == 1) && #W <= 1
+//@   ensures #W == 1 ==> W.recv[0] == C.ret0[0] && W.arg0[0] == fields
+
+//@ func (*zap.Logger).Info
+//@   props C06 C15 C05
+//@   flags nopanic propagates-panics
+//@   requires log != nil && log.core != nil && log.clock != nil && log.addStack != nil && log.errorOutput != nil
+//@   requires 0 <= log.callerSkip && log.callerSkip <= 1 << 20
+//@   track C = call (*zap.Logger).check
+//@   track W = call (*zapcore.CheckedEntry).Write
+//@   ensures #C == 1 && C.recv[0] == log && C.arg0[0] == zapcore.InfoLevel && C.arg1[0] == msg
+//@   ensures (C.ret0[0] != nil <==> #W == 1) && #W <= 1
+//@   ensures #W == 1 ==> W.recv[0] == C.ret0[0] && W.arg0[0] == fields
+
+//@ func (*zap.Logger).Warn
+//@   props C06 C15 C05
+//@   flags nopanic propagates-panics
+//@   requires log != nil && log.core != nil && log.clock != nil && log.addStack != nil && log.errorOutput != nil
+//@   requires 0 <= log.callerSkip && log.callerSkip <= 1 << 20
+//@   track C = call (*zap.Logger).check
+//@   track W = call (*zapcore.CheckedEntry).Write
+//@   ensures #C == 1 && C.recv[0] == log && C.arg0[0] == zapcore.WarnLevel && C.arg1[0] == msg
+//@   ensures (C.ret0[0] != nil <==> #W == 1) && #W <= 1
+//@   ensures #W == 1 ==> W.recv[0] == C.ret0[0] && W.arg0[0] == fields
+
+//@ func (*zap.Logger).Error
+//@   props C06 C15 C05
+//@   flags nopanic propagates-panics
+//@   requires log != nil && log.core != nil && log.clock != nil && log.addStack != nil && log.errorOutput != nil
+//@   requires 0 <= log.callerSkip && log.callerSkip <= 1 << 20
+//@   track C = call (*zap.Logger).check
+//@   track W = call (*zapcore.CheckedEntry).Write
+//@   ensures #C == 1 && C.recv[0] == log && C.arg0[0] == zapcore.ErrorLevel && C.arg1[0] == msg
+//@   ensures (C.ret0[0] != nil <==> #W == 1) && #W <= 1
+//@   ensures #W == 1 ==> W.recv[0] == C.ret0[0] && W.arg0[0] == fields
+
+//@ func (*zap.Logger).DPanic
+//@   props C06 C15 C05
+//@   flags nopanic propagates-panics
+//@   requires log != nil && log.core != nil && log.clock != nil && log.addStack != nil && log.errorOutput != nil
+//@   requires 0 <= log.callerSkip && log.callerSkip <= 1 << 20
+//@   track C = call (*zap.Logger).check
+//@   track W = call (*zapcore.CheckedEntry).Write
+//@   ensures #C == 1 && C.recv[0] == log && C.arg0[0] == zapcore.DPanicLevel && C.arg1[0] == msg
+//@   ensures (C.ret0[0] != nil <==> #W == 1) && #W <= 1
+//@   ensures #W == 1 ==> W.recv[0] == C.ret0[0] && W.arg0[0] == fields
+//@   assert at call 1 of (*zapcore.CheckedEntry).Write : log.development ==> C.ret0[0].after == overrideHook(iface(type(zapcore.CheckWriteAction), zapcore.WriteThenPanic), log.onPanic) && !C.ret0[0].dirty
+//@   ensures old(log.development) ==> #W == 1
+
+//@ func (*zap.Logger).Panic
+//@   props C06 C15 C05
+//@   flags nopanic propagates-panics
+//@   requires log != nil && log.core != nil && log.clock != nil && log.addStack != nil && log.errorOutput != nil
+//@   requires 0 <= log.callerSkip && log.callerSkip <= 1 << 20
+//@   track C = call (*zap.Logger).check
+//@   track W = call (*zapcore.CheckedEntry).Write
+//@   ensures #C == 1 && C.recv[0] == log && C.arg0[0] == zapcore.PanicLevel && C.arg1[0] == msg
+//@   ensures (C.ret0[0] != nil <==> #W == 1) && #W <= 1
+//@   ensures #W == 1 ==> W.recv[0] == C.ret0[0] && W.arg0[0] == fields
+//@   assert at call 1 of (*zapcore.CheckedEntry).Write : C.ret0[0].after == overrideHook(iface(type(zapcore.CheckWriteAction), zapcore.WriteThenPanic), log.onPanic) && !C.ret0[0].dirty
+//@   ensures #W == 1
+
+//@ func (*zap.Logger).Fatal
+//@   props C06 C15 C05
+//@   flags nopanic propagates-panics
+//@   requires log != nil && log.core != nil && log.clock != nil && log.addStack != nil && log.errorOutput != nil
+//@   requires 0 <= log.callerSkip && log.callerSkip <= 1 << 20
+//@   track C = call (*zap.Logger).check
+//@   track W = call (*zapcore.CheckedEntry).Write
+//@   ensures #C == 1 && C.recv[0] == log && C.arg0[0] == zapcore.FatalLevel && C.arg1[0] == msg
+//@   ensures (C.ret0[0] != nil <==> #W == 1) && #W <= 1
+//@   ensures #W == 1 ==> W.recv[0] == C.ret0[0] && W.arg0[0] == fields
+//@   assert at call 1 of (*zapcore.CheckedEntry).Write : C.ret0[0].after == overrideHook(iface(type(zapcore.CheckWriteAction), zapcore.WriteThenFatal), log.onFatal) && !C.ret0[0].dirty
+//@   ensures #W == 1
+
+//@ func (*zap.Logger).Log
+//@   props C06 C15 C05
+//@   flags nopanic propagates-panics
+//@   requires log != nil && log.core != nil && log.clock != nil && log.addStack != nil && log.errorOutput != nil
+//@   requires 0 <= log.callerSkip && log.callerSkip <= 1 << 20
+//@   track C = call (*zap.Logger).check
+//@   track W = call (*zapcore.CheckedEntry).Write
+//@   ensures #C == 1 && C.recv[0] == log && C.arg0[0] == lvl && C.arg1[0] == msg
+//@   ensures (C.ret0[0] != nil <==> #W == 1) && #W <= 1
+//@   ensures #W == 1 ==> W.recv[0] == C.ret0[0] && W.arg0[0] == fields
+//@   assert at call 1 of (*zapcore.CheckedEntry).Write : (lvl == zapcore.PanicLevel ==> C.ret0[0].after == overrideHook(iface(type(zapcore.CheckWriteAction), zapcore.WriteThenPanic), log.onPanic)) && (lvl == zapcore.FatalLevel ==> C.ret0[0].after == overrideHook(iface(type(zapcore.CheckWriteAction), zapcore.WriteThenFatal), log.onFatal)) && !C.ret0[0].dirty
+//@   ensures lvl == zapcore.PanicLevel || lvl == zapcore.FatalLevel ==> #W == 1
